@@ -1,21 +1,41 @@
 #!/bin/bash
-# Re-evaluates every seeded change (and every benign one) against the quick check of its property.
-# usage: seeded_all.sh [seeded|benign]   -- mutates /repo while running; do not run checks concurrently
+# Re-evaluates every seeded change (or every harmless one) against the quick check of its property.
+# usage: [CROSS=1] seeded_all.sh [seeded|benign] [name-regex]
+#   CROSS: also run the other properties named in meta.json's detected_by
+# Mutates /repo while running (applies each patch, restores it): never run checks concurrently.
+# For seeded changes meta.json's detected_by / last_evaluation are rewritten from the result.
 kind=${1:-seeded}
+sel=${2:-.}
 cd /verif
-for d in $(ls $kind | sort); do
+# shorter limits than the registered commands: a changed tree that makes queries hard should say so soon
+export VERIF_QUERY_TIMEOUT_MS=${VERIF_QUERY_TIMEOUT_MS:-6000} VERIF_BUDGET=${VERIF_BUDGET:-240}
+for d in $(ls $kind | sort | grep -E "$sel"); do
   [ -f $kind/$d/patch.diff ] || continue
   prop=${d:0:3}
   extra=""
-  [ -f $kind/$d/meta.json ] && extra=$(python3 -c "
+  [ -n "$CROSS" ] && [ -f $kind/$d/meta.json ] && extra=$(python3 -c "
 import json,re
 m=json.load(open('/verif/$kind/$d/meta.json'))
 ps=re.findall(r'\bC\d\d\b', str(m.get('detected_by') or ''))
 print(' '.join(sorted(set(p for p in ps if p!='$prop'))))")
   res=""
   for p in $prop $extra; do
-    out=$(./mutants_eval.sh /verif/$kind/$d/patch.diff $p 2>&1 | grep -E "^(VIOLATION|OK|INCONCLUSIVE|vcheck|APPLY|REPO)" | head -1 | cut -c1-60)
+    out=$(./mutants_eval.sh /verif/$kind/$d/patch.diff $p 2>&1 | grep -E "^(VIOLATION|OK|INCONCLUSIVE|vcheck|APPLY|REPO|  )" | head -2 | cut -c1-260 | tr '\n' ' ')
     res="$res [$p: $out]"
   done
   echo "$d$res"
+  if [ "$kind" = seeded ] && [ -f $kind/$d/meta.json ]; then
+    python3 - "$kind/$d/meta.json" "$res" <<'PY'
+import json,sys,re
+p,res=sys.argv[1],sys.argv[2]
+m=json.load(open(p))
+hits=re.findall(r'\[(C\d\d): VIOLATION property=\S+ replay=\S+\s+(.*?)\]\s*(?=\[C\d\d:|$)', res)
+m['last_evaluation']=res.strip()[:600]
+if hits:
+    m['detected_by']='; '.join('%s: %s' % (c, re.sub(r'\s+\[\].*','',d).strip()[:200]) for c,d in hits)
+elif not m.get('detected_by'):
+    m['detected_by']=None
+json.dump(m,open(p,'w'),indent=1)
+PY
+  fi
 done
